@@ -1,0 +1,70 @@
+//go:build verif
+
+package layout
+
+import (
+	"github.com/benoitkugler/webrender/css/counters"
+	bo "github.com/benoitkugler/webrender/html/boxes"
+	"github.com/benoitkugler/webrender/html/tree"
+	"github.com/benoitkugler/webrender/text"
+)
+
+// VerifPageStep is what one call of remakePage did during the first
+// pagination round (verification harness of property C01): the inputs read
+// from the page maker and the layout context, and the outputs of the page.
+type VerifPageStep struct {
+	Blank     bool   // the page was made as a blank page
+	Right     bool   // pageMaker[index].RightPage
+	BreakIn   string // pageMaker[index].InitialNextPage.Break
+	ResumeIn  string // pageMaker[index].InitialResumeAt ("" when nil)
+	ResumeOut string // resume point returned by the page ("" when nil)
+	BreakOut  string // pageMaker[index+1].InitialNextPage.Break
+	FnIn      int    // footnotes reported by the previous page
+	FnOut     int    // footnotes reported to the next page
+	Broken    int    // broken out-of-flow boxes left for the next page
+}
+
+// VerifPageTrace builds the formatting structure like [Layout] and runs the
+// loop of makeAllPages for the first round, one remakePage call at a time, for
+// at most [maxPages] pages. [footnotes] is the number of footnotes of the
+// document, [rootLTR] the direction used to resolve recto / verso breaks;
+// [truncated] is true when the loop had not ended after [maxPages] pages.
+func VerifPageTrace(html *tree.HTML, stylesheets []tree.CSS, presentationalHints bool, fontConfig text.FontConfiguration,
+	maxPages int,
+) (steps []VerifPageStep, footnotes int, rootLTR bool, truncated bool) {
+	counterStyle := make(counters.CounterStyle)
+	context := newLayoutContext(html, stylesheets, presentationalHints, fontConfig, counterStyle)
+	rootBox := bo.BuildFormattingStructure(html.Root, context.styleFor, context.resolver,
+		html.BaseUrl, &context.TargetCollector, counterStyle, &context.footnotes)
+	footnotes = len(context.footnotes)
+	rootLTR = rootBox.Box().Style.GetDirection() == "ltr"
+	initializePageMaker(context, *rootBox.Box())
+
+	str := func(r tree.ResumeStack) string {
+		if r == nil {
+			return ""
+		}
+		return r.String()
+	}
+	for i := 0; ; i++ {
+		if i >= maxPages {
+			return steps, footnotes, rootLTR, true
+		}
+		in := context.pageMaker[i]
+		step := VerifPageStep{
+			Right: in.RightPage, BreakIn: in.InitialNextPage.Break, ResumeIn: str(in.InitialResumeAt),
+			FnIn: len(context.reportedFootnotes),
+		}
+		context.pageMaker[i].RemakeState = tree.RemakeState{}
+		page, resumeAt := context.remakePage(i, rootBox, html)
+		step.Blank = page.PageType.Blank
+		step.ResumeOut = str(resumeAt)
+		step.BreakOut = context.pageMaker[i+1].InitialNextPage.Break
+		step.FnOut = len(context.reportedFootnotes)
+		step.Broken = len(context.brokenOutOfFlow.values())
+		steps = append(steps, step)
+		if resumeAt == nil && len(context.reportedFootnotes) == 0 {
+			return steps, footnotes, rootLTR, false
+		}
+	}
+}
